@@ -13,6 +13,7 @@ import FloVerif.Driver.C07
 import FloVerif.Driver.C09
 import FloVerif.Driver.C14
 import FloVerif.Driver.C03
+import FloVerif.Driver.C10
 import FloVerif.Driver.C02
 import FloVerif.Driver.C20
 /-!
@@ -40,6 +41,7 @@ def dispatch (prop op stream : String) (ins outs : List String) : List C05.Out :
       { field := o.field, cmp := if o.ok then .same 0 else .diff o.msg, fbit := if o.exact then some o.ok else none }
   | "C20" => C20.handle op stream ins outs
   | "C02" => C02.handle op ins outs
+  | "C10" => C10.handle op ins outs
   | "C03" => (C03.handle op ins outs).map fun o =>
       { field := o.field, cmp := if o.ok then .same 0 else .diff o.msg, fbit := none }
   | "C07" => (C07.handle op ins outs).map fun o =>
